@@ -1,10 +1,11 @@
 #!/usr/bin/env python3
-"""mk_seed_round.py <round-tag>: prepares /tmp/wt/<tag>C01..C20 (scratch git worktrees of /repo HEAD) with PROPERTY.txt and
+"""mk_seed_round.py <round-tag> [C01,C02,...]: prepares /tmp/wt/<tag>C01..C20 (scratch git worktrees of /repo HEAD) with PROPERTY.txt and
 PROMPT.txt for the seeding sub-agents (they get nothing from /verif except the text of one property and one-line summaries of
 changes that were already tried)."""
 import glob, json, os, subprocess, sys
 
 tag = sys.argv[1]
+only = set(sys.argv[2].split(",")) if len(sys.argv) > 2 else None
 VERIF = os.path.dirname(os.path.dirname(os.path.abspath(__file__)))
 props = [json.loads(l) for l in open(f"{VERIF}/properties.jsonl")]
 tried = {}
@@ -17,6 +18,8 @@ for d in sorted(glob.glob(f"{VERIF}/seeded/C??-?")):
 os.makedirs("/tmp/wt", exist_ok=True)
 for p in props:
     pid = p["id"]
+    if only and pid not in only:
+        continue
     wt = f"/tmp/wt/{tag}{pid}"
     out = f"/tmp/wt/{tag}{pid}_out"
     subprocess.run(["git", "-C", "/repo", "worktree", "add", "-q", "--detach", wt, "HEAD"], check=True)
